@@ -64,7 +64,34 @@ for _n in (0,1,4):
         functions=['<[u8;N] as KeyBytes>::*'], role='keybytes'))
 
 
+def run_m(tier, seed, ev):
+    import mirrun
+    import mprop
+    import obl_codec as C
+    with mirrun.mir_executor("C16") as (ex, scr, mir_s):
+        lb = 3 if tier == "quick" else 4
+        obs = [("op decoder total + allocation-bounded, input length symbolic/unbounded", "decoder_counts",
+                lambda ex: C.ob_decoder_total(ex, "deserialize_wal_op_raw", None, "deserialize_wal_op_raw", lb)),
+               ("snapshot decoder total + allocation-bounded, input length symbolic/unbounded", "decoder_counts",
+                lambda ex: C.ob_decoder_total(ex, "deserialize_index_state", None, "deserialize_index_state", lb))]
+        rc = mprop.run_m("C16", tier, seed, ev, ex, obs, [("src/serialization.rs", "c16_serialization.rs", "verif_c16")],
+                         "replay_c16_decoder_counts")
+        ev.extra["mir_dump_s"] = round(mir_s, 1)
+        ev.extra["engine_M_models"] = sorted(ex.models.used)
+        return rc
+
+
 def run(tier, seed, ev):
+    rc_m = run_m(tier, seed, ev)
+    rc_k = run_k(tier, seed, ev)
+    ev.bounds["Engine M decoders"] = "input slice of symbolic length up to isize::MAX; entry/key loops unrolled 3 (quick) / 4 (thorough) times; integers decoded from the input arbitrary"
+    ev.assumptions.append("Engine M: allocation bound = requested bytes <= 8 x input length + 96 (Vec growth slack); split_at_checked/split_first/copy_from_slice/to_vec/from_le_bytes are contract models, the same helpers are decided byte-wise by Kani")
+    if 1 in (rc_m, rc_k):
+        return 1
+    return max(rc_m, rc_k)
+
+
+def run_k(tier, seed, ev):
     ev.functions = sorted({f for h in H for f in h.functions})
     ev.bounds = {h.name: h.bounds for h in H if tier in h.tiers}
     ev.stubs = ["tracing::* -> no-op macros"]
